@@ -325,11 +325,11 @@ def parse_debug(msgs):
     return its
 
 
-def fdwra_near_tie(dbg, n, dfn, peak_sets, scale, exact_zero=False):
-    return fdwra_near_tie_index(dbg, n, dfn, peak_sets, scale, exact_zero) is not None
+def fdwra_near_tie(dbg, n, dfn, peak_sets, scale, exact_zero=False, exact_tie=False):
+    return fdwra_near_tie_index(dbg, n, dfn, peak_sets, scale, exact_zero, exact_tie) is not None
 
 
-def fdwra_near_tie_index(dbg, n, dfn, peak_sets, scale, exact_zero=False):
+def fdwra_near_tie_index(dbg, n, dfn, peak_sets, scale, exact_zero=False, exact_tie=False):
     """index of the first iteration in which some decision (zero guards, convergence limits, accept bounds) is within
     rounding distance of its threshold: in exact arithmetic it is decided one way, in floating point either way"""
     eps = 1e-9
@@ -343,7 +343,9 @@ def fdwra_near_tie_index(dbg, n, dfn, peak_sets, scale, exact_zero=False):
         if not exact_zero and "diff_before" in it and abs(it["diff_before"]) < eps * scale:
             return j
         for k in ("d_diff", "s_diff"):
-            if k in it and abs(it[k] - 0.01) < 1e-7:
+            # exact_tie: peaks on a dyadic grid under the normal distribution -- mean fn, the mean-curve peak and hence d_diff are computed without rounding
+            # (one correctly rounded division at the end), so d_diff == 0.01 is an exact event decided by the published rule ("below 0.01"), not a rounding tie
+            if k in it and abs(it[k] - 0.01) < 1e-7 and not (exact_tie and k == "d_diff"):
                 return j
         if "mean_fn_before" in it and "std_fn_before" in it:
             m, sd = it["mean_fn_before"], it["std_fn_before"]
@@ -359,7 +361,7 @@ def fdwra_near_tie_index(dbg, n, dfn, peak_sets, scale, exact_zero=False):
     return None
 
 
-def fdwra_with_trace(obj, n, maxit, dfn, dmc, rng_, exact_zero=False, kw_empty=False):
+def fdwra_with_trace(obj, n, maxit, dfn, dmc, rng_, exact_zero=False, kw_empty=False, exact_tie=False):
     import hvsrpy
     import logging
     lg = logging.getLogger("hvsrpy.window_rejection")
@@ -380,8 +382,8 @@ def fdwra_with_trace(obj, n, maxit, dfn, dmc, rng_, exact_zero=False, kw_empty=F
     dbg = parse_debug(cap.msgs)
     hs = obj.hvsrs if isinstance(obj, hvsrpy.HvsrAzimuthal) else [obj]
     peak_sets = [list(getattr(h, "_main_peak_frq", [])) for h in hs]
-    near = fdwra_near_tie(dbg, n, dfn, peak_sets, float(np.max(obj.frequency)), exact_zero)
-    fdwra_with_trace.last_index = fdwra_near_tie_index(dbg, n, dfn, peak_sets, float(np.max(obj.frequency)), exact_zero)
+    near = fdwra_near_tie(dbg, n, dfn, peak_sets, float(np.max(obj.frequency)), exact_zero, exact_tie)
+    fdwra_with_trace.last_index = fdwra_near_tie_index(dbg, n, dfn, peak_sets, float(np.max(obj.frequency)), exact_zero, exact_tie)
     return ret, dbg, near
 
 
@@ -482,7 +484,7 @@ class Mirror:
 
     def fdwra(self, n, maxit, dfn, dmc, rng_):
         import hvsrpy
-        ret, dbg, near = fdwra_with_trace(self.obj, n, maxit, dfn, dmc, rng_, exact_zero=getattr(self, "exact_zero", False))
+        ret, dbg, near = fdwra_with_trace(self.obj, n, maxit, dfn, dmc, rng_, exact_zero=getattr(self, "exact_zero", False), exact_tie=getattr(self, "exact_tie", False))
         self.last_debug = dbg
         self.last_near_tie = near
         self.last_near_index = fdwra_with_trace.last_index
@@ -494,7 +496,7 @@ class Mirror:
         """frequency_domain_window_rejection with find_peaks_kwargs={} (the entry peak search is skipped when the stored range equals the requested one),
         on the whole object or -- az given -- on ONE azimuth of an azimuthal object (users do analyse single azimuths)"""
         target = self.obj if az is None else self.obj.hvsrs[az]
-        ret, dbg, near = fdwra_with_trace(target, n, maxit, dfn, dmc, rng_, exact_zero=getattr(self, "exact_zero", False), kw_empty=kw_empty)
+        ret, dbg, near = fdwra_with_trace(target, n, maxit, dfn, dmc, rng_, exact_zero=getattr(self, "exact_zero", False), kw_empty=kw_empty, exact_tie=getattr(self, "exact_tie", False))
         self.last_debug = dbg
         self.last_near_tie = near
         self.last_near_index = fdwra_with_trace.last_index
